@@ -54,6 +54,7 @@ class Parser:
         self.toks = tokenize(text)
         self.i = 0
         self.nparam = 0
+        self.names = {}
 
     def peek(self, k=0):
         return self.toks[self.i + k] if self.i + k < len(self.toks) else ("eof", "")
@@ -112,8 +113,15 @@ class Parser:
             if t[0] == "op" and t[1] == ")":
                 depth -= 1
             if t[0] == "param":
-                self.nparam += 1
-                num = int(t[1][1:]) if t[1][1:].isdigit() else self.nparam
+                if t[1][0] in ":@$":
+                    # named placeholder: SQLite numbers names in order of first appearance; a repeated name is the same parameter
+                    if t[1] not in self.names:
+                        self.nparam += 1
+                        self.names[t[1]] = self.nparam
+                    num = self.names[t[1]]
+                else:
+                    self.nparam += 1
+                    num = int(t[1][1:]) if t[1][1:].isdigit() else self.nparam
                 t = ("param", num)
             toks.append(t)
             self.i += 1
@@ -350,6 +358,7 @@ def parse(text):
     else:
         raise SqlError("unrecognised statement: %r" % text[:60])
     st["nparams"] = p.nparam
+    st["param_names"] = dict(p.names)
     return st
 
 
